@@ -23,6 +23,8 @@ FIRST = {
     # round 3 (seeds told what rounds 1 and 2 had taken, and hinted at units / origins / orderings / boundary values / histories)
     "C01-3": "caught (replay)", "C02-3": "caught (replay)", "C03-3": "caught (replay)", "C04-3": "caught (replay)", "C05-3": "missed",
     "C06-3": "missed", "C07-3": "missed", "C08-2": "caught (replay)",
+    "C09-3": "caught (replay)", "C10-3": "caught (replay)", "C11-3": "caught (replay)", "C12-3": "broken correspondence, no-failing-input-found",
+    "C13-3": "caught (replay)", "C14-3": "missed",
 }
 
 
